@@ -594,6 +594,10 @@ func Build(spec Spec) *Built {
 		fa := b.NewFile(u, "a.go")
 		fb := b.NewFile(u, "b.go")
 		files := []*File{fa, fb}
+		if ui%2 == 1 {
+			// `unsafe` never carries a fact under go vet (it is not analysed there): first in the package's import list
+			fa.BlankImp = append(fa.BlankImp, "unsafe")
+		}
 		fnoimp := b.NewFile(u, "noimp.go")
 		for _, at := range aliasDecls {
 			// references to the annotated alias declaration: a variable, a parameter, a literal
